@@ -1053,3 +1053,45 @@ def order_key_(n):
 def _is_params_map(e, aliases=()):
     """<ir>["params"] or a local bound to it"""
     return (isinstance(e, ast.Subscript) and isinstance(e.slice, ast.Constant) and e.slice.value == "params") or (isinstance(e, ast.Name) and e.id in aliases)
+
+
+# ---------------------------------------------------------------------------- ORDER-merge
+def rule_order_merge(prog, rep, tier, anchor="parser_utils.ir_merge"):
+    """ORDER-merge (C07, C03, C08): the signature-only parameters are appended to the parameter mapping in the order the
+    signature gives them.  In the merge region no order-reversing step feeds an insertion into a mapping: `popitem()`
+    without `last=False` (LIFO), `reversed(..)`, `[::-1]`, `sorted(.., reverse=True)` over the parameters that are then
+    inserted one by one reverse the appended block on every parse."""
+    fi = prog.fn(anchor)
+    n = 0
+    for f_ in prog.region(fi):
+        for lp in ast.walk(f_.node):
+            if not isinstance(lp, (ast.For, ast.While)):
+                continue
+            inserts = [s_ for s_ in ast.walk(lp) if isinstance(s_, ast.Assign) and any(isinstance(t, ast.Subscript) for t in s_.targets)]
+            inserts += [c for c in ast.walk(lp) if isinstance(c, ast.Call) and isinstance(c.func, ast.Attribute) and c.func.attr in ("update", "setdefault", "append", "insert")]
+            if not inserts:
+                continue
+            n += 1
+            header = [lp.iter] if isinstance(lp, ast.For) else [lp.test]
+            rev = None
+            for e in header + [x for s_ in lp.body for x in [s_]]:
+                for c in ast.walk(e):
+                    if isinstance(c, ast.Call) and isinstance(c.func, ast.Attribute) and c.func.attr == "popitem" \
+                            and not any(k.arg == "last" and isinstance(k.value, ast.Constant) and k.value.value is False for k in c.keywords) \
+                            and not (c.args and isinstance(c.args[0], ast.Constant) and c.args[0].value is False):
+                        rev = "%s pops the LAST item first" % src(c, 40)
+                    elif isinstance(c, ast.Call) and isinstance(c.func, ast.Name) and c.func.id == "reversed" and e in header:
+                        rev = "the loop runs over %s" % src(c, 40)
+                    elif isinstance(c, ast.Subscript) and isinstance(c.slice, ast.Slice) and isinstance(c.slice.step, ast.UnaryOp) and e in header:
+                        rev = "the loop runs over the reversed %s" % src(c, 40)
+                    elif isinstance(c, ast.Call) and isinstance(c.func, ast.Name) and c.func.id == "sorted" and e in header:
+                        rev = "the loop runs over %s (sorted, not the given order)" % src(c, 40)
+            inst = "%s: insertion loop at line %d" % (f_.qualname, lp.lineno)
+            if rev:
+                rep.violation(Finding("ORDER-merge", prog.owner_name(f_), "reversed-insertion",
+                                      "entries are inserted one by one while %s: the parameters the docstring does not mention come out in a different order than the "
+                                      "signature has them (and flip again on the next pass)" % rev, loc(prog, lp)))
+            else:
+                rep.holds("ORDER-merge", inst, loc(prog, lp), "insertion follows the iteration order of the source mapping")
+    if n == 0:
+        rep.ob("ORDER-merge", "%s: no insertion loop (the merge is expressed without one)" % anchor, "holds", loc(prog, fi.node), "")
